@@ -123,6 +123,16 @@ pub fn run(cx: &mut Cx, w: &World, rng: &mut Rng, budget: u64) {
       feed_base(cx, s, true);
     }
   }
+  // long texts in which every byte offset falls inside a multi-byte character in one of the variants
+  for prefix in ["", "2020-01-01T00:00:00", "https://example.com/", "z", "m", "u", "f"] {
+    for s in gen::wide_ladders(prefix, 'A', 600) {
+      k += 1;
+      if cx.args.mine(k) {
+        feed_str(cx, &s);
+        feed_base(cx, &s, true);
+      }
+    }
+  }
   for n in NUM_TOKENS {
     k += 1;
     if !cx.args.mine(k) {
